@@ -31,20 +31,26 @@
   ticket: response = stored ticket                   ticket_response_is_stored_ticket
   wampcra: response = HMAC(key, THIS challenge)      wampcra_bound_to_this_challenge,
                                                      wampcra_replay_rejected
-  cryptosign: opens to THIS challenge                bound_to_this_challenge_cryptosign_full (def),
-                                                     .._partial, .._full_fails (F7), .._gen,
-                                                     cryptosign_replay_witness (attach level)
+  cryptosign: opens to THIS challenge                bound_to_this_challenge_cryptosign (the full
+                                                     statement `.._full Facts.gen`, proved since the
+                                                     fix of F7), .._gen, .._partial;
+                                                     regression lemmas for a tree without the
+                                                     comparison: .._full_fails,
+                                                     cryptosign_replay_witness
   bound_to_this_challenge, all methods at once       bound_to_this_challenge
   identity: session id                               identity_session
   identity: WELCOME overrides HELLO                  identity_from_welcome, identity_exact
   roles / authmethods dropped                        identity_roles_dropped
   identity: built-in authenticators                  identity_builtin
   identity: local bypass                             identity_local
-  identity for every authenticator (full)            identity_full (def), identity_partial,
-                                                     identity_full_fails (HELLO value survives),
-                                                     identity_local_authid_full (def),
+  identity for every authenticator (full)            identity (= identity_full Facts.gen, proved since
+                                                     the HELLO loop skips the identity keys),
+                                                     identity_full_of_skip, identity_of_hello_skip,
+                                                     identity_partial; regression lemmas for the old
+                                                     skip list: hello_identity_survives_old_skip_list,
+                                                     identity_full_fails_old_skip_list
+  local bypass: authid is the client's (open)        identity_local_authid_full (def),
                                                      identity_local_authid_full_fails
-  no HELLO value under a key the HELLO loop skips    identity_of_hello_skip
   shown to others = recorded                         clean_preserves_identity
   transport.auth is not shown                        clean_hides_transport_auth,
                                                      clean_transport_auth_non_dict_shown
@@ -70,8 +76,10 @@ theorem source_shape :
       ["ErrProtocolViolation", "ErrNoSuchRealm", "ErrSystemShutdown", "ErrNoSuchRealm", "ErrNoSuchRealm",
        "ErrSystemShutdown", "ErrNoSuchRole", "ErrAuthenticationFailed", "ErrSystemShutdown"] ∧
     Gen.Auth.clientRoles = ["publisher", "subscriber", "callee", "caller"] ∧
-    Gen.Auth.helloSkip = ["authmethods", "roles"] ∧
+    Gen.Auth.helloSkip =
+      ["authmethods", "roles", "session", "authid", "authrole", "authmethod", "authprovider"] ∧
     Gen.Auth.welcomeSkip = ["roles"] ∧
+    Gen.Auth.cryptosignChecksChallenge = true ∧
     Gen.Auth.sessionKey = "session" ∧
     Gen.Auth.localBypassCond = "client.IsLocal() && !r.localAuth" ∧
     Gen.Auth.localWelcome =
@@ -100,7 +108,9 @@ theorem source_welcome_literals :
 /-- The hypotheses the theorems below put on `fx` hold for the regenerated facts. -/
 theorem source_facts_gen :
     Facts.gen.firstMatch = true ∧ Facts.gen.sessionKey = "session" ∧
-    Facts.gen.helloSkip = ["authmethods", "roles"] ∧ Facts.gen.welcomeSkip = ["roles"] := by
+    Facts.gen.helloSkip =
+      ["authmethods", "roles", "session", "authid", "authrole", "authmethod", "authprovider"] ∧
+    Facts.gen.welcomeSkip = ["roles"] ∧ Facts.gen.csChecksChallenge = true := by
   decide
 
 /-! ## WELCOME only if ... -/
@@ -482,6 +492,12 @@ theorem bound_to_this_challenge_cryptosign_gen :
   · intro hc
     exact bound_to_this_challenge_cryptosign_partial Facts.gen (hg.trans hc)
 
+/-- `bound_to_this_challenge_cryptosign`: THE full statement, for the source as it is now
+    (`verifySignature` compares the opened message with the challenge: F7 is fixed).  Reverting
+    that comparison flips `Gen.Auth.cryptosignChecksChallenge` and this theorem no longer checks. -/
+theorem bound_to_this_challenge_cryptosign : bound_to_this_challenge_cryptosign_full Facts.gen :=
+  bound_to_this_challenge_cryptosign_gen.mpr (by decide)
+
 /-- The replay, end to end, against a router with one realm whose only authenticator is
     cryptosign: the same captured response is presented in two handshakes whose challenges
     differ (`[1]` opens... the response opens to `[2]` in both).  Without the comparison both are
@@ -659,9 +675,9 @@ theorem identity_roles_dropped {fx : Facts} {rt : RouterCfg} {env : Env} {arr : 
     · simp [hk, hh, hs, hw]
 
 /-- `identity_of_hello_skip`: a key that the HELLO merge loop skips is never taken from HELLO: what
-    is recorded under it is the WELCOME's value, or nothing.  (With the four identity keys and
-    `session` added to that skip list — the proposed fix — no client-supplied identity survives,
-    whatever the authenticator does; today the list is `helloSkip = [authmethods, roles]`.) -/
+    is recorded under it is the WELCOME's value, or nothing.  (Since "fix: identity keys in HELLO
+    details are never copied into the session details" the loop skips the four identity keys and
+    `session` besides `authmethods` and `roles`: `identity` below.) -/
 theorem identity_of_hello_skip {fx : Facts} {rt : RouterCfg} {env : Env} {arr : List Arrival}
     {sid : Nat} {sess w : Dict} (h : (attach fx rt env arr).outcome = .welcome sid sess w)
     {k : String} (hk : k ≠ fx.sessionKey) (hh : k ∈ fx.helloSkip) :
@@ -674,13 +690,36 @@ theorem identity_of_hello_skip {fx : Facts} {rt : RouterCfg} {env : Env} {arr : 
   · simp only [hk, hs, hh, if_false, if_true]
     cases w.get? k <;> rfl
 
-/-- Identity at full strength: whenever a client is welcomed, each of authid, authrole,
-    authmethod, authprovider in the recorded details is a value of the WELCOME details built by the
-    router and the authenticator. -/
+/-- Identity at full strength: whenever a client is welcomed, the recorded `session` is the id the
+    router drew and each of authid, authrole, authmethod, authprovider in the recorded details is
+    exactly what the WELCOME details built by the router and the authenticator say — the same value,
+    or absent where they have none — whatever the HELLO details contain. -/
 def identity_full (fx : Facts) : Prop :=
   ∀ (rt : RouterCfg) (env : Env) (arr : List Arrival) (sid : Nat) (sess w : Dict),
     (attach fx rt env arr).outcome = .welcome sid sess w →
-    ∀ k ∈ identityKeys, ∃ v, w.get? k = some v ∧ sess.get? k = some v
+    sess.get? "session" = some (.int sid) ∧ sid = env.o.sid ∧
+    ∀ k ∈ identityKeys, sess.get? k = w.get? k
+
+/-- `identity_full_of_skip`: the full statement holds as soon as the HELLO merge loop skips the
+    four identity keys (no hypothesis on the authenticator, the key store or the HELLO). -/
+theorem identity_full_of_skip {fx : Facts} (hsk : fx.sessionKey = "session") (hws : fx.welcomeSkip = ["roles"])
+    (hskip : ∀ k ∈ identityKeys, k ∈ fx.helloSkip) : identity_full fx := by
+  intro rt env arr sid sess w h
+  have hses := identity_session h
+  rw [hsk] at hses
+  refine ⟨hses.1, hses.2, ?_⟩
+  intro k hk
+  have hne : k ≠ fx.sessionKey := by
+    rw [hsk]; simp [identityKeys] at hk; rcases hk with h | h | h | h <;> subst h <;> decide
+  have hnw : k ∉ fx.welcomeSkip := by
+    rw [hws]; simp [identityKeys] at hk; rcases hk with h | h | h | h <;> subst h <;> decide
+  rw [identity_of_hello_skip h hne (hskip k hk), if_neg hnw]
+
+/-- `identity`: THE full identity statement for the source as it is now (the HELLO loop of
+    `AttachClient` skips session, authid, authrole, authmethod, authprovider).  Removing one of
+    them from that loop changes `Gen.Auth.helloSkip` and this theorem no longer checks. -/
+theorem identity : identity_full Facts.gen :=
+  identity_full_of_skip (by decide) (by decide) (by decide)
 
 /-- `identity_partial`: it holds whenever the authenticator's WELCOME carries the four keys (the
     exact hypothesis; `source_welcome_literals` + `identity_builtin` show the built-in
@@ -699,7 +738,8 @@ theorem identity_partial {fx : Facts} (hsk : fx.sessionKey = "session") (hws : f
     · rw [hsk]; simp [identityKeys] at hk; rcases hk with h | h | h | h <;> subst h <;> decide
     · rw [hws]; simp [identityKeys] at hk; rcases hk with h | h | h | h <;> subst h <;> decide
 
-/-! The witness against `identity_full`: an authenticator that sets only `authid` (any custom
+/-! Regression lemmas: with the skip list the source had before the fix (`[authmethods, roles]`)
+    the full statement is false.  Witness: an authenticator that sets only `authid` (any custom
     `auth.Authenticator` may), and a HELLO that carries `authrole: "admin"`. -/
 
 def partialRouter : RouterCfg :=
@@ -714,8 +754,8 @@ def smuggleDetails : Dict :=
 
 def smuggleArrivals : List Arrival := [⟨0, .msg (.hello "r1" smuggleDetails)⟩]
 
-/-- What is recorded for that handshake: the client's own `authrole` and `authprovider`. -/
-theorem hello_identity_survives (fx : Facts) (hfm : fx.firstMatch = true) (hsk : fx.sessionKey = "session")
+/-- What was recorded for that handshake: the client's own `authrole` and `authprovider`. -/
+theorem hello_identity_survives_old_skip_list (fx : Facts) (hfm : fx.firstMatch = true) (hsk : fx.sessionKey = "session")
     (hhs : fx.helloSkip = ["authmethods", "roles"]) (hws : fx.welcomeSkip = ["roles"]) :
     ∃ sess w, (attach fx partialRouter (witnessEnv []) smuggleArrivals).outcome = .welcome 1 sess w ∧
       w.get? "authrole" = none ∧
@@ -727,15 +767,14 @@ theorem hello_identity_survives (fx : Facts) (hfm : fx.firstMatch = true) (hsk :
   subst hfm; subst hsk; subst hhs; subst hws
   exact ⟨_, _, rfl, rfl, rfl, rfl, rfl, rfl, rfl⟩
 
-/-- `identity_full_fails`: the full statement is false of the code: a HELLO detail survives
-    whenever the authenticator leaves the key unset. -/
-theorem identity_full_fails (fx : Facts) (hfm : fx.firstMatch = true) (hsk : fx.sessionKey = "session")
+/-- with the old skip list a HELLO detail survived whenever the authenticator left the key unset -/
+theorem identity_full_fails_old_skip_list (fx : Facts) (hfm : fx.firstMatch = true) (hsk : fx.sessionKey = "session")
     (hhs : fx.helloSkip = ["authmethods", "roles"]) (hws : fx.welcomeSkip = ["roles"]) :
     ¬ identity_full fx := by
   intro hfull
-  obtain ⟨sess, w, hout, hnone, _⟩ := hello_identity_survives fx hfm hsk hhs hws
-  obtain ⟨v, hv, _⟩ := hfull _ _ _ _ _ _ hout "authrole" (by simp [identityKeys])
-  rw [hnone] at hv
+  obtain ⟨sess, w, hout, hnone, hadmin, _⟩ := hello_identity_survives_old_skip_list fx hfm hsk hhs hws
+  have hv := (hfull _ _ _ _ _ _ hout).2.2 "authrole" (by simp [identityKeys])
+  rw [hnone, hadmin] at hv
   simp at hv
 
 /-- What the built-in authenticators (over key stores that are not `BypassKeyStore`s) assign:
